@@ -9,7 +9,9 @@
      * ExitMainLoop is raised only while no nested loop is open                               (F9 c')
      * close_loop() only inside a nested loop, once per dispatch, with nothing left to drain  (F9 d j)
      * execute_new_loop() not after a close_loop() of the same dispatch                       (F13)
-     * no force_quit(), no process_signals(), no submissions from other threads               (F9 f g h)
+     * no force_quit(), no process_signals()                                                  (F9 f g h)
+     * a submission from another thread (the reader thread's typed line) arrives when the loop is idle, into an
+       empty queue, for a class that is handled (the models know no other timing)
      * run() only with no nested level open
    The checks are on the MainLoop model's own states, so the predicate is decidable: [in_fragment]. *)
 From Coq Require Import ZArith NArith List Bool.
@@ -60,7 +62,16 @@ Section Frag.
         if run_loop s then
           match do_get s with
           | inl None => Some (OBlocked, s)
-          | inr _ => None                                   (* a submission from another thread *)
+          | inr _ =>
+            (* a submission from another thread arrives while the loop is idle (the only timing the models have):
+               admitted when it obeys the rules of an enqueue (its level's queue is empty, its class is handled) *)
+            match ext s with
+            | sp :: r =>
+              let '(sg, s1) := new_signal (s <| ext := r |>) sp in
+              let s2 := emit (EExt (sg_id sg)) s1 in
+              if enqueue_ok s2 sg then fexec f CProcLoop (do_enqueue s2 sg) else None
+            | [] => None
+            end
           | inl (Some (sg, s1)) =>
             let s2 := emit (EDispatch (sg_id sg) (active s) (length (levels s))) s1 in
             obind (fexec f (CProcessSignal sg 0) s2) (fun '(o, s3) =>
@@ -137,7 +148,7 @@ Section Frag.
         | ARegHandler cls hid data =>
           Some (ONormal, emit (ERegHandler cls hid data) (s <| handlers := add_handler (handlers s) cls hid data |>))
         | ASetQuitCb arg => Some (ONormal, emit (ESetQuitCb arg) (s <| quit_cb := Some arg |>))
-        | AExtAdd _ => None
+        | AExtAdd sp => Some (ONormal, s <| ext := ext s ++ [sp] |>)
         end
       | CProg p =>
         match p with
@@ -180,3 +191,4 @@ Section Frag.
     | None => false
     end.
 End Frag.
+
